@@ -55,6 +55,13 @@ CHECKS = {
     note="State = tuple of member fingerprints (sound for this property: it only observes width and denotation). Widening simplify may over-approximate the object it is applied to. "
          "Trusted: amc/ref/bv.py walker.",
     design="DESIGN.md section 3, C13"),
+ "C16": dict(
+    category="model_checking",
+    technique="bounded exhaustive enumeration of structure definitions (<=3/4 fields over the field-kind alphabet, packed/natural, pointer size 32/64, unions, trailing variable-length fields) against a C layout calculator validated with gcc and python struct",
+    text="For every definition: size, align_value, offsets and offset_of versus the C ABI layout (calculator cross-checked against gcc -m64/-m32 sizeof/_Alignof/offsetof tables on every run), "
+         "unpack values versus struct.unpack at the C offsets, pack() of the unpacked values versus the original bytes; LEB128 read/write on ~500 boundary values.",
+    note="Failing definitions containing a smaller failing definition are shadowed. ~90 known-finding signatures (pack() of arrays/nested/bitfields/variable fields, padding not emitted, packed alignment, nested struct at unaligned offset) in KNOWN_FINDINGS.json.",
+    design="DESIGN.md section 3, C16"),
  "C17": dict(
     category="model_checking",
     technique="complete spec-driven enumeration of instruction words per ISA mode (every field walked, tail/ModRM/SIB/prefix menus) through decode, well-formedness, every formatter, pickle and execution; failures reduced to line-free signatures matched against KNOWN_FINDINGS.json",
